@@ -18,7 +18,8 @@
     I.c.r  Invoke(r) entered        E.c.r  Invoke(r) returned         R.c.r  client received response r
     M.c  client received the close message        X.c  client read EOF        D.c  DoClose called (receiver closed the connection)
     H    Shutdown called            T.1 / T.0 / T.x  Shutdown returned (all closed / context expired / either)
-    Y.c  CloseIdles has seen connection c idle and is about to Close() it (verif hook)
+    Y.c  CloseIdles has seen connection c idle (numInvoke == 0, stale idle stamp) and is about to
+         Close() it (as found) / wake its receiver (repaired)   (verif hook)
     Q    quiescence: the harness has waited far longer than every handler duration and poll period and
          nothing more was observed — admitted iff some current state cannot reach, by internal steps, a
          state in which a handler starts or ends or a client receives something
@@ -98,6 +99,18 @@ def reqIndex (s : State) (c r : Nat) : Option Nat :=
   | some k => k.reqs.findIdx? (fun q => q.id == r)
   | none => none
 
+/-- `CloseIdles` finds connection `c` idle: `ciVisit c` with `numInvoke = 0` and a stale idle stamp
+(after the clock action if the stamp is still fresh) -/
+def idleVisit (cfg : Cfg) (s : State) (c : Nat) : List State :=
+  match s.pass, s.conns[c]? with
+  | some p, some k =>
+    if p.todo.contains c && p.holding.isNone && k.registered && k.numInvoke = 0 then
+      match (if k.stale then some s else step cfg s (.age c)) with
+      | some s1 => (step cfg s1 (.ciVisit c)).toList
+      | none => []
+    else []
+  | _, _ => []
+
 /-- the successor states of `s` under the observed event -/
 def fire (cfg : Cfg) (s : State) : Ev → List State
   | .conn c => if c = s.conns.length then (step cfg s .connect).toList else []
@@ -134,9 +147,14 @@ def fire (cfg : Cfg) (s : State) : Ev → List State
     | .returned _, none => [s]
     | _, _ => []
   | .yield c =>
-    match s.pass with
-    | some p => if p.holding = some c then [s] else []
-    | none => []
+    -- as found: the load has happened and the connection is held for closing; kick-only: the
+    -- yield sits before the wake-up, the visit itself is the observed step
+    (match s.pass with
+     | some p => if p.holding = some c then [s] else []
+     | none => []) ++
+    (match cfg.ci with
+     | .kickOnly => idleVisit cfg s c
+     | _ => [])
   | .quiet => [s]   -- filtered in `admitsLoop` (needs the τ-closure)
 
 /-- an output the harness would observe if the run went on -/
